@@ -67,6 +67,8 @@ def trial(ex, st, run_body):
     ex.noprune += 1
     saved, saved_log = ex.writes, ex.write_log
     ex.writes, ex.write_log = set(), []
+    saved_keep = getattr(ex, "star_keep", None)
+    ex.star_keep = None
     try:
         s = st.copy()
         ends = run_body(s)
@@ -78,6 +80,12 @@ def trial(ex, st, run_body):
             saved |= ex.writes
             saved_log.extend(ex.write_log)
         ex.writes, ex.write_log = saved, saved_log
+        inner_keep = ex.star_keep
+        ex.last_star_keep = inner_keep
+        if saved is not None and "*" in w:
+            ex.star_keep = inner_keep if saved_keep is None else ((saved_keep & inner_keep) if inner_keep is not None else saved_keep)
+        else:
+            ex.star_keep = saved_keep
     return w, ends, log
 
 
@@ -244,7 +252,15 @@ def havoc_locals(ex, st, names, ends):
 
 def havoc_writes(ex, st, writes):
     if "*" in writes:
-        calls.havoc_all(ex, st)
+        keep = getattr(ex, "last_star_keep", None) or set()
+        for hn in list(st.heap.keys()):
+            if hn == "$alive" or hn in keep or (hn.startswith("has$") and hn[4:] in keep):
+                continue
+            ex.fresh_heap(st, hn)
+        for (c, n) in ex.S.fields:
+            if n in keep and n not in st.heap:
+                ex.heap_get(st, n)
+        st.epoch = next(_uid) + 1
         return
     for hn in sorted(writes):
         ex.fresh_heap(st, hn)
